@@ -22,6 +22,11 @@ import (
 var scratch string
 
 func main() {
+	if len(os.Args) == 4 && os.Args[1] == "--strace-child" {
+		api.DisableConfigDir()
+		straceChild(os.Args[2], os.Args[3])
+		return
+	}
 	mode := flag.String("mode", "C06", "C06|C07")
 	runtime.LockOSThread()
 	// vh.Start parses the flags
